@@ -36,7 +36,7 @@ def cq_case(case, out):
     prints = [hx(bytes.fromhex(p)) for p in out["prints"]]
     store = [(hx(bytes.fromhex(p["sym"])), p["arity"], [list(r) for r in p["rows"]]) for p in case["preds"]]
     hashes = [[Raw(hex(int(h))) for h in hs] for hs in out["atom_hash"]]     # hex numerals are read much faster
-    astr = [[hx(bytes.fromhex(s)) for s in ss] for ss in out["atom_str"]]
+    astr = [[hx(bytes.fromhex(s)) for s in ss] for ss in out["atom_str"]] if case["det"] else []
     read = None if out.get("read_err") else C("Some", cq_gfacts(out["read_seq"]))
     lz = out["lazy"]
     lhdr = None if lz.get("err") else C("Some", [(hx(bytes.fromhex(p["sym"])), p["arity"], p["args"][0]) for p in lz["preds"]])
@@ -394,7 +394,7 @@ def run(ck):
         c["shape"] = "corpus"
         cases.append(c)
     ncorpus = len(cases)
-    for i in range(ck.n(200, 5000)):
+    for i in range(ck.n(200, 2500)):
         cases.append(gen_case(rng, env, big=(i % 10 == 0)))
     nrandom = len(cases) - ncorpus
     exhaustive = False
